@@ -1,11 +1,13 @@
 package main
 
-// Tolerance for renamed locals. Loop clauses name the loop's own variables; a harmless rename would make them
-// unresolvable. /verif/names_snapshot.json records, for every top-level function that has a contract (its own or one
-// of its closures'), the ordered list of (name, type) of the variables it declares, as of the tree the contracts were
-// written against. When a clause's identifier cannot be resolved, the current function's list is compared with the
-// snapshot: if both have the same length and the same types position by position, the identifier is resolved to
-// the variable now declared at the position where the old name was declared. Anything else stays an alarm.
+// Tolerance for renamed names and restructured loops (DESIGN section 5, "Names" and "Loops"). Loop clauses name the
+// loop's own variables and are keyed by loop ordinal; a harmless rename or a removed/added loop would make them
+// unresolvable or attach them to the wrong loop. /verif/names_snapshot.json (written by `vcgo names`) records, as of
+// the tree the contracts were written against: per top-level function under contract the (name, type) of the variables
+// it declares; per function its parameters and results (`params:`); per function the shape of its loops in ordinal
+// order (`loopvars:`); per package its functions and constants (`pkgobjs:`). An identifier that no longer resolves is
+// looked up there (renamedLocal, renamedPkgObject); loop ordinals are mapped through loopAlign. Anything that cannot be
+// matched unambiguously stays an alarm (a generation failure, never a counterexample).
 
 import (
 	"encoding/json"
